@@ -14,7 +14,7 @@ import vrun
 VERIF = vrun.VERIF
 TRUSTED_BASE = [
     'cbmc 6.11.0 front end (goto-cc), dfcc contract instrumentation (goto-instrument), symbolic execution and MiniSat back end',
-    "CBMC's C library models (malloc/free/realloc/calloc/memcpy/memcmp/memchr/strlen/ctype via -D__NO_CTYPE, C locale)",
+    "CBMC's C library models (malloc/free/realloc/calloc/memcpy/memcmp/strlen/ctype via -D__NO_CTYPE, C locale)",
     'wrapper-TU convention: the real /repo/htp/*.c file is #included verbatim; loop-contract clauses are inserted by lib/annotate.py and strip(annotate(x))==x is checked on every run',
     'x86-64 LP64 data model; machine arithmetic is bit-precise (no mathematical-integer idealisation)',
 ]
@@ -109,6 +109,26 @@ def main(argv):
             sel = [u for u in sel if not u['thorough_only']]
     prop = a.prop or (sel[0]['props'][0] if sel else '?')
     t0 = time.time()
+    # known findings that are carved out of a unit by a macro are re-confirmed on every run: the same unit is run once more
+    # with the carve-out disabled (probe); a failed obligation matching the finding prints KNOWN-FINDING, anything else in the
+    # probe run is ignored (the carved unit itself still checks everything outside the recorded input class).
+    known = load_known()
+    probes = []
+    if a.prop:
+        import copy
+        byname = {u['name']: u for u in units}
+        for k in known.get('findings', []):
+            if k.get('property') != a.prop or not k.get('probe_defs') or k.get('unit') not in byname:
+                continue
+            pu = copy.deepcopy(byname[k['unit']])
+            pu['name'] = '%s#probe:%s' % (k['unit'], k['id'])
+            for tier in ('quick', 'thorough'):
+                pu['defs'].setdefault(tier, {})
+            pu['defs']['quick'].update(k['probe_defs'])
+            pu['probe_of'] = k
+            pu['min_obl'] = 1
+            probes.append(pu)
+        sel = sel + probes
     results = []
     with cf.ThreadPoolExecutor(max_workers=a.j) as ex:
         futs = {ex.submit(vrun.run_unit, u, a.tier, a.keep, a.v): u for u in sel}
@@ -124,10 +144,21 @@ def main(argv):
             if a.keep and 'work' in r:
                 print('       work dir:', r['work'])
     results.sort(key=lambda r: r['unit'])
-    known = load_known()
     violations = []
     known_hit = []
+    probe_results = [r for r in results if '#probe:' in r['unit']]
+    results = [r for r in results if '#probe:' not in r['unit']]
+    for r in probe_results:
+        k = [u for u in probes if u['name'] == r['unit']][0]['probe_of']
+        hit = [fl for fl in r['failed'] if re.search(k.get('match', '.'), fl.get('property', '') + ' ' + fl.get('description', ''))]
+        if hit:
+            known_hit.append((k, r, hit[0]))
+        elif r['status'] == 'undecided':
+            print('NOTE: probe for known finding %s undecided (%s); finding not re-confirmed in this run' % (k['id'], r['reason']))
+        else:
+            print('NOTE: known finding %s no longer reproduces (probe unit passed): remove it from known_findings.json' % k['id'])
     undecided = [r for r in results if r['status'] == 'undecided']
+    sel = [u for u in sel if '#probe:' not in u['name']]
     import vreplay
     for r in results:
         if r['status'] != 'fail':
